@@ -531,6 +531,7 @@ def run(m, tier):
     results.append(guard_rules.type_switch_rule(m, "C06.R16"))
     results.append(guard_rules.int_operand_rule(m, "C06.R17"))
     results.append(guard_rules.match_object_rule(m, "C06.R18"))
+    results.append(optional_rules.accessor_index_rule(m, "C06.R19"))
     expl = ("Decides the structural clauses of C06: (R1) who-may-call -- no call path from the parse/print/read entry points to a "
             "process-terminating call (resolved call graph incl. grammar dispatch); (R2) every fparser exception class raised as a "
             "signal is converted at Program.__new__; (R3) every explicit raise of a non-convertible class is discharged by a guard "
